@@ -5,6 +5,15 @@ bounds), default kind (fallback, none, symbol-valued, out-of-range literal) and 
 set out of range, set default), x an input alphabet with malformed classes, entered by three routes
 (Symbol.set_value, an sdkconfig line, the config server's set handler) x all assignments of the condition / bound options.
 
+Range kinds with SEVERAL range lines on one option: `condfb` (a conditional range followed by an unconditional fallback
+range that contains it; defaults / inputs inside the narrow one, between the two, outside both), `condcond` (two conditional
+ranges with independent conditions, none may apply) and `fbcond` (an unconditional range followed by a conditional one,
+which never applies).
+
+Parser dimension: every program is also loaded with the pyparsing-based parser (parser_version=2) for the no-input route
+(+ its live steps) and the set_value route (quick: one input per class P2_ALPHA_Q, without live steps; thorough: the whole
+alphabet with live steps, and the sdkconfig route).  The server route and the remaining inputs run under parser 1 only.
+
 Oracle per option and configuration: bool in {y,n}; int a base-10 integer; hex a non-negative base-16 integer; float finite;
 empty only when nothing provides a value; inside the first range whose condition holds; header / CMake / JSON / sdkconfig
 writers do not raise and denote the same number (hex with 0x in header and CMake).
@@ -25,9 +34,11 @@ from ..kgen import Cfg, L, Program, S
 ID = "C06"
 LEVEL = "exploration"
 RULE = (
-    "programs = type{int,hex,float} x range{none,lit,lit-containing-0,lit-if-C,sym-bounds} x default{fallback,none,symbol,out-of-range} x "
+    "programs = type{int,hex,float} x range{none,lit,lit-containing-0,lit-if-C,sym-bounds,sym-upper-bound,two-definitions,"
+    "cond-then-fallback,cond-then-cond,fallback-then-cond} x default{fallback,none,symbol,out-of-range} x "
     "indirect{none,set,set-out-of-range,set-default,set-default-out-of-range} x prompt{plain,if V}; inputs = per-type alphabet incl. malformed classes x "
-    "route{set_value, sdkconfig line, server handle_set} x all values of C,V,LO,D; distinct_nontrivial = distinct (program, "
+    "route{set_value, sdkconfig line, server handle_set} x all values of C,C2,V,LO,D; x parser{1: everything; 2: no-input (+live steps) and "
+    "set_value with one input per class (thorough: whole alphabet + live steps + sdkconfig route)}; distinct_nontrivial = distinct (program, "
     "input class, route, resulting value vector) where the input was malformed, out of range, or re-formatted."
 )
 ASSUMPTIONS = [
@@ -37,7 +48,7 @@ ASSUMPTIONS = [
 
 ALPHA = {
     "int": ["0", "7", "-3", "99999999999999999999", "007", "0x10", "1e3", "5.0", " 5", "+5", "1_0", "", "abc", "5 "],
-    "hex": ["0x1f", "1F", "0X1f", "-0x1", "0x", "g", "1_0", "0x1_0", "-0", "0x0", " 1f", "", "+1f"],
+    "hex": ["0x1f", "1F", "0X1f", "-0x1", "0x", "g", "1_0", "0x1_0", "-0", "0x0", " 1f", "", "+1f", "0xfff"],
     "float": ["5", "1e3", "-2.5", ".5", "5.", "1e400", "nan", "inf", "-inf", "1_0.5", "0x10", "", " 2.5", "2.5e-3"],
 }
 SERVER_VALUES = {
@@ -50,6 +61,14 @@ LIT = {
     "hex": dict(lo="0x2", hi="0x9f", fb="0x10", oor="0xfff", setv="0x18", setoor="0xabc", wset="0x12", symdef="0x3", lo2="0x100", hi2="0x1ff", fb2="0x180"),
     "float": dict(lo="0.5", hi="9.5", fb="1.5", oor="77.5", setv="3.25", setoor="1e9", wset="0.75", symdef="2.5", lo2="100.5", hi2="200.5", fb2="150.5"),
 }
+# wide (fallback) range around [lo, hi]: some inputs / defaults lie between the two, some outside both
+WIDE = {"int": ("-5", "60"), "hex": ("0x0", "0x2ff"), "float": ("-5.5", "50.5")}
+# parser-2 quick inputs: inside the narrow range, between narrow and wide, outside every range, malformed
+P2_ALPHA_Q = {
+    "int": ["7", "-3", "99999999999999999999", "0x10"],
+    "hex": ["0x1f", "0x0", "0xfff", "g"],
+    "float": ["5", "-2.5", "1e3", "nan"],
+}
 INT_RE = re.compile(r"[+-]?[0-9]+\Z")
 HEX_RE = re.compile(r"(0[xX])?[0-9a-fA-F]+\Z")
 
@@ -59,7 +78,7 @@ def programs(tier: str) -> Iterator[Dict[str, Any]]:
         lit = LIT[t]
         combos = list(itertools.product(("none", "lit", "zero", "cond", "sym"), ("fb", "none", "sym", "oor"), ("none", "set", "setoor", "wset", "wsetoor"), (False, True)))
         # upper bound taken from an option (with a value / possibly without one), and an option defined twice with a range per definition
-        combos += list(itertools.product(("symhi", "symhi_empty", "multi"), ("fb", "oor"), ("none", "set", "setoor", "wset"), (False,)))
+        combos += list(itertools.product(("symhi", "symhi_empty", "multi", "condfb", "condcond", "fbcond"), ("fb", "oor"), ("none", "set", "setoor", "wset"), (False,)))
         for rng, dfl, ind, pc in combos:
             if tier == "quick" and pc and (rng == "sym" or dfl == "sym"):
                 continue
@@ -105,6 +124,25 @@ def programs(tier: str) -> Iterator[Dict[str, Any]]:
                 T.ranges.append((L(lit["lo"]), L(lit["hi"]), S("C")))
                 aux["C"] = Cfg("C", "bool", prompt="c")
                 dom["C"] = [None, "y"]
+            elif rng in ("condfb", "condcond", "fbcond"):
+                wlo, whi = WIDE[t]
+                aux["C"] = Cfg("C", "bool", prompt="c")
+                dom["C"] = [None, "y"]
+                if rng == "fbcond":  # the unconditional range comes first: the conditional one never applies
+                    T.ranges.append((L(wlo), L(whi), None))
+                    T.ranges.append((L(lit["lo"]), L(lit["hi"]), S("C")))
+                    ref_ranges.append([wlo, whi, None])
+                else:
+                    T.ranges.append((L(lit["lo"]), L(lit["hi"]), S("C")))
+                    ref_ranges.append([lit["lo"], lit["hi"], ["C", "y"]])
+                    if rng == "condfb":
+                        T.ranges.append((L(wlo), L(whi), None))
+                        ref_ranges.append([wlo, whi, None])
+                    else:
+                        T.ranges.append((L(wlo), L(whi), S("C2")))
+                        aux["C2"] = Cfg("C2", "bool", prompt="c2")
+                        dom["C2"] = [None, "y"]
+                        ref_ranges.append([wlo, whi, ["C2", "y"]])
             elif rng == "sym":
                 ref_ranges.append(["@LO", lit["hi"], None])
                 T.ranges.append((S("LO"), L(lit["hi"]), None))
@@ -130,8 +168,8 @@ def programs(tier: str) -> Iterator[Dict[str, Any]]:
                     src.wsets.append(("T", L(lit["wset"]), None))
                 aux["SRC"] = src
                 dom["SRC"] = [None, "y"]
-            kids = [aux[n] for n in ("V", "C", "F", "G") if n in aux] + [T] + ([T2] if T2 else []) + [aux[n] for n in ("LO", "HI", "LIM", "D", "SRC") if n in aux]
-            yield {"type": t, "shape": f"{rng}/{dfl}/{ind}/{'pc' if pc else 'plain'}", "files": kgen.render(Program(children=kids)), "dom": dom, "ref_ranges": ref_ranges}
+            kids = [aux[n] for n in ("V", "C", "C2", "F", "G") if n in aux] + [T] + ([T2] if T2 else []) + [aux[n] for n in ("LO", "HI", "LIM", "D", "SRC") if n in aux]
+            yield {"type": t, "shape": f"{rng}/{dfl}/{ind}/{'pc' if pc else 'plain'}", "files": kgen.render(Program(children=kids)), "dom": dom, "ref_ranges": ref_ranges, "tier": tier}
 
 
 def items(tier: str, seed: int):
@@ -196,6 +234,8 @@ def check_state(inst, item, label: str, r: common.Result, case: dict, icls: str,
     c = impl.core()
     k = inst.k
     base_sig = {"type": item["type"], "input": icls, "route": route}
+    if case.get("parser", 1) != 1:
+        base_sig["parser"] = case["parser"]
     vals: Dict[str, str] = {}
     try:
         for s in k.unique_defined_syms:
@@ -313,7 +353,7 @@ def check_state(inst, item, label: str, r: common.Result, case: dict, icls: str,
             m = re.search(rf"^CONFIG_{s.name}=(.*)$", outs["config"], re.M)
             if not m or m.group(1) != v:
                 r.violation({"kind": "format_denotes_other_number", "format": "config", **base_sig}, f"{label} sdkconfig has {m.group(0) if m else None!r} for {s.name}={v}", case)
-    r.outcome((item["shape"], item["type"], icls, route, tuple(sorted(vals.items()))))
+    r.outcome((item["shape"], item["type"], icls, route, tuple(sorted(vals.items()))) + ((case["parser"],) if case.get("parser", 1) != 1 else ()))
 
 
 def enter(inst, t: str, route: str, v: Any, r: common.Result) -> Optional[str]:
@@ -334,13 +374,22 @@ def enter(inst, t: str, route: str, v: Any, r: common.Result) -> Optional[str]:
     return None
 
 
-def run_case(item, route: str, v: Any, names: List[str], assign: tuple, r: common.Result) -> None:
+def mk_case(item, route, v, names, assign, parser: int = 1) -> dict:
+    case = {"item": {k: item[k] for k in ("type", "shape", "files", "dom", "ref_ranges")}, "route": route, "value": v if not isinstance(v, float) or math.isfinite(v) else repr(v), "names": names, "assign": list(assign)}
+    if parser != 1:
+        case["parser"] = parser
+    return case
+
+
+def run_case(item, route: str, v: Any, names: List[str], assign: tuple, r: common.Result, parser: int = 1, live: bool = True) -> None:
     t = item["type"]
     files = item["files"]
     icls = input_class(t, v)
-    case = {"item": {k: item[k] for k in ("type", "shape", "files", "dom", "ref_ranges")}, "route": route, "value": v if not isinstance(v, float) or math.isfinite(v) else repr(v), "names": names, "assign": list(assign)}
-    label = f"[{t} {item['shape']} {route} T<-{v!r} {dict((n, a) for n, a in zip(names, assign) if a is not None)}]"
-    inst = impl.Inst(files)
+    case = mk_case(item, route, v, names, assign, parser)
+    if not live:
+        case["live"] = False
+    label = f"[{t} {item['shape']}{' parser=' + str(parser) if parser != 1 else ''} {route} T<-{v!r} {dict((n, a) for n, a in zip(names, assign) if a is not None)}]"
+    inst = impl.Inst(files, parser=parser)
     for n, a in zip(names, assign):
         if a is not None:
             inst.k.syms[n].set_value(a)
@@ -350,10 +399,10 @@ def run_case(item, route: str, v: Any, names: List[str], assign: tuple, r: commo
         if route == "server":
             r.count("server_handler_raised(C15)")
             return
-        r.violation({"kind": "entry_raises", "route": route, "type": t, "input": icls}, f"{label} entering the value raised {esc}", case)
+        r.violation({"kind": "entry_raises", "route": route, "type": t, "input": icls, **({"parser": parser} if parser != 1 else {})}, f"{label} entering the value raised {esc}", case)
         return
     check_state(inst, item, label, r, case, icls, route)
-    if route == "set_value":
+    if route == "set_value" and live:
         live_steps(inst, item, label, r, case, icls, route, names, assign)
 
 
@@ -364,7 +413,7 @@ def live_steps(inst, item, label: str, r: common.Result, case: dict, icls: str, 
         for a2 in item["dom"][n]:
             if a2 == a:
                 continue
-            twin = impl.Inst(item["files"])
+            twin = impl.Inst(item["files"], parser=case.get("parser", 1))
             for nm, av in zip(names, assign):
                 if av is not None:
                     twin.k.syms[nm].set_value(av)
@@ -387,17 +436,25 @@ def run_item(item) -> common.Result:
     names = list(item["dom"])
     doms = [item["dom"][n] for n in names]
     n = 0
+    thorough = item.get("tier") == "thorough"
     for assign in itertools.product(*doms):
-        # without any input first
-        inst = impl.Inst(item["files"])
-        for nm, a in zip(names, assign):
-            if a is not None:
-                inst.k.syms[nm].set_value(a)
-        r.evals += 1
-        check_state(inst, item, f"[{t} {item['shape']} no-input {dict((n_, a) for n_, a in zip(names, assign) if a is not None)}]", r,
-                    {"item": {k: item[k] for k in ("type", "shape", "files", "dom", "ref_ranges")}, "route": None, "value": None, "names": names, "assign": list(assign)}, "none", "none")
-        live_steps(inst, item, f"[{t} {item['shape']} no-input {dict((n_, a) for n_, a in zip(names, assign) if a is not None)}]", r,
-                   {"item": {k: item[k] for k in ("type", "shape", "files", "dom", "ref_ranges")}, "route": None, "value": None, "names": names, "assign": list(assign)}, "none", "none", names, assign)
+        # without any input first, under either parser
+        for parser in (1, 2):
+            inst = impl.Inst(item["files"], parser=parser)
+            for nm, a in zip(names, assign):
+                if a is not None:
+                    inst.k.syms[nm].set_value(a)
+            r.evals += 1
+            label = f"[{t} {item['shape']}{' parser=2' if parser != 1 else ''} no-input {dict((n_, a) for n_, a in zip(names, assign) if a is not None)}]"
+            case = mk_case(item, None, None, names, assign, parser)
+            check_state(inst, item, label, r, case, "none", "none")
+            live_steps(inst, item, label, r, case, "none", "none", names, assign)
+        # parser 2: the set_value route (thorough: whole alphabet with live steps, and the sdkconfig route)
+        for v in ALPHA[t] if thorough else P2_ALPHA_Q[t]:
+            run_case(item, "set_value", v, names, assign, r, parser=2, live=thorough)
+            if thorough:
+                run_case(item, "sdkconfig", v, names, assign, r, parser=2)
+            r.count("parser2_inputs")
         for v in ALPHA[t]:
             for route in ("set_value", "sdkconfig"):
                 run_case(item, route, v, names, assign, r)
@@ -414,11 +471,11 @@ def replay(case) -> List[dict]:
     item = case["item"]
     if case.get("then"):
         base = {k: v for k, v in case.items() if k != "then"}
-        inst = impl.Inst(item["files"])
+        inst = impl.Inst(item["files"], parser=case.get("parser", 1))
         live_steps(inst, item, "[replay]", r, base, input_class(item["type"], case["value"]) if case["route"] else "none", case["route"] or "none", case["names"], tuple(case["assign"]))
         return [v for v in r.viols if v["case"].get("then") == case["then"]] or r.viols
     if case["route"] is None:
-        inst = impl.Inst(item["files"])
+        inst = impl.Inst(item["files"], parser=case.get("parser", 1))
         for nm, a in zip(case["names"], case["assign"]):
             if a is not None:
                 inst.k.syms[nm].set_value(a)
@@ -427,5 +484,5 @@ def replay(case) -> List[dict]:
         v = case["value"]
         if isinstance(v, str) and v in ("inf", "nan") and case["route"] == "server":
             v = float(v)
-        run_case(item, case["route"], v, case["names"], tuple(case["assign"]), r)
+        run_case(item, case["route"], v, case["names"], tuple(case["assign"]), r, parser=case.get("parser", 1), live=case.get("live", True))
     return r.viols
